@@ -195,6 +195,44 @@ def build_node_tree(t, cls=None, sep="/"):
     root = go(t, None)
     return root, nodes
 
+_EQC = {}
+
+
+def eq_class(base=None):
+    """a user subclass of `base` (default Node) with VALUE equality and a matching hash: two nodes are equal when
+    crc32(name) % 3 agrees, so every tree of a few nodes holds several pairs of equal, distinct nodes.  bigtree
+    identifies nodes by identity; what a read-only function returns must not depend on `__eq__` / `__hash__` of a user
+    class.  Only for trees that are built with `node.parent = p` on fresh nodes and then only READ: the unchanged
+    setters themselves use `list.remove`, `list.index` and dictionaries keyed by nodes."""
+    from bigtree import Node
+    base = base or Node
+    if base not in _EQC:
+        import zlib
+
+        class EqNode(base):
+            def _k(self):
+                return zlib.crc32(str(self.node_name).encode()) % 3
+
+            def __eq__(self, other):
+                return isinstance(other, EqNode) and self._k() == other._k()
+
+            def __ne__(self, other):
+                return not self.__eq__(other)
+
+            def __hash__(self):
+                return self._k()
+
+        EqNode.__name__ = "Eq" + base.__name__
+        _EQC[base] = EqNode
+    return _EQC[base]
+
+
+def eq_share(spec) -> bool:
+    """a third of the specs (a function of the spec, no random stream)"""
+    import zlib
+    return zlib.crc32(repr(spec).encode()) % 3 == 0
+
+
 def _takes_sep(cls) -> bool:
     from bigtree import BinaryNode
     return not issubclass(cls, BinaryNode)
